@@ -714,8 +714,10 @@ namespace xtl
     template <class T>
     inline auto xcomplex<CTR, CTI, B>::operator*=(const T& rhs) noexcept -> disable_xcomplex<T, self_type&>
     {
-        m_real *= rhs;
-        m_imag *= rhs;
+        // rhs may be a reference to one of our own parts (z *= z.real()): read it once
+        const T factor(rhs);
+        m_real *= factor;
+        m_imag *= factor;
         return *this;
     }
 
@@ -723,8 +725,10 @@ namespace xtl
     template <class T>
     inline auto xcomplex<CTR, CTI, B>::operator/=(const T& rhs) noexcept -> disable_xcomplex<T, self_type&>
     {
-        m_real /= rhs;
-        m_imag /= rhs;
+        // rhs may be a reference to one of our own parts (z /= z.real()): read it once
+        const T divisor(rhs);
+        m_real /= divisor;
+        m_imag /= divisor;
         return *this;
     }
 
